@@ -45,6 +45,9 @@ type AssertAt struct {
 	Nth    int // if > 0: the Nth statement (in block order) whose source line contains Anchor
 	Clause *Clause
 	Used   bool
+	// Snapshot: when set, the clause is not asserted; its value at the anchor is bound to this
+	// name for later assert_at clauses of the same function ("snapshot_at")
+	Snapshot string
 }
 
 type SpecFn struct {
@@ -180,7 +183,7 @@ func newRegistry() *Registry {
 }
 
 var stmtKeywords = map[string]bool{
-	"package": true, "func": true, "requires": true, "ensures": true, "assume_ensures": true, "assert_at": true, "assume_at": true, "modifies": true, "unshared": true, "loop": true,
+	"package": true, "func": true, "requires": true, "ensures": true, "assume_ensures": true, "assert_at": true, "assume_at": true, "snapshot_at": true, "modifies": true, "unshared": true, "loop": true,
 	"invariant": true, "option": true, "trusted": true, "pure": true, "spec": true, "ufunc": true,
 	"axiom": true, "ghost": true, "decreases": true, "opaque": true, "macro": true, "mapvalues": true, "elemvalues": true, "guarded": true, "monitor": true, "frameset": true, "pkgalias": true, "lemmaonly": true, "dead": true, "lemma": true, "induct": true,
 }
@@ -336,20 +339,40 @@ func (r *Registry) loadContractFile(path string, pkgPath string) error {
 				}
 				cur.Loops[curLoop] = append(cur.Loops[curLoop], cl)
 			}
+		case "snapshot_at":
+			// snapshot_at "anchor"[#n]: name = expr
+			if cur == nil {
+				return fail("snapshot_at outside func")
+			}
+			m := regexp.MustCompile(`^"((?:[^"\\]|\\.)*)"(#\d+)?\s*:\s*(\w+)\s*=\s*(.+)$`).FindStringSubmatch(s.rest)
+			if m == nil {
+				return fail(`snapshot_at needs '"anchor text"[#n]: name = expr'`)
+			}
+			e, err := parseCExpr(m[4])
+			if err != nil {
+				return fail("%v", err)
+			}
+			nth := 0
+			if m[2] != "" {
+				nth, _ = strconv.Atoi(m[2][1:])
+			}
+			cur.AssertsAt = append(cur.AssertsAt, &AssertAt{Anchor: m[1], Nth: nth, Snapshot: m[3], Clause: &Clause{Text: m[4], Expr: e, Src: s.src}})
 		case "assert_at", "assume_at":
 			if cur == nil {
 				return fail("assert_at outside func")
 			}
-			m := regexp.MustCompile(`^"((?:[^"\\]|\\.)*)"(#\d+)?\s*:\s*(.+)$`).FindStringSubmatch(s.rest)
+			m := regexp.MustCompile(`^"((?:[^"\\]|\\.)*)"(#\d+|#\*)?\s*:\s*(.+)$`).FindStringSubmatch(s.rest)
 			if m == nil {
-				return fail(`assert_at needs '"anchor text"[#n]: expr'`)
+				return fail(`assert_at needs '"anchor text"[#n|#*]: expr'`)
 			}
 			e, err := parseCExpr(m[3])
 			if err != nil {
 				return fail("%v", err)
 			}
 			nth := 0
-			if m[2] != "" {
+			if m[2] == "#*" {
+				nth = -1 // every statement whose source line contains the anchor
+			} else if m[2] != "" {
 				nth, _ = strconv.Atoi(m[2][1:])
 			}
 			cur.AssertsAt = append(cur.AssertsAt, &AssertAt{Assume: s.kw == "assume_at", Anchor: m[1], Nth: nth, Clause: &Clause{Text: m[3], Expr: e, Src: s.src}})
